@@ -5,8 +5,8 @@ from . import core, decl, dyn, parsesuite, findings
 PID = "C08"
 TYPES = {"int": int, "str": str, "PositiveInt": None, "List[int]": None, "bool": bool, "Optional[int]": None}
 GOOD = {"int": [1, "2", 3.0], "str": ["s", 5], "PositiveInt": [1, "5"], "List[int]": [[1, "2"], []], "bool": [True, "false"],
-        "Optional[int]": [None, 4, "6"], None: [1, "q", None]}
-BAD = {"int": ["x"], "PositiveInt": [0, "x"], "List[int]": [["x"]], "Optional[int]": ["x"]}
+        "Optional[int]": [None, 4, "6"], None: [1, "q", None], "None": [None]}
+BAD = {"int": ["x"], "PositiveInt": [0, "x"], "List[int]": [["x"]], "Optional[int]": ["x"], "None": [1, "x", 0]}
 DEFAULTS = {"int": ["0", "7"], "str": ["'x'", "''"], "PositiveInt": ["3"], "List[int]": ["()"], "bool": ["False"], "Optional[int]": ["None"],
             None: ["0", "None"]}
 
@@ -40,11 +40,11 @@ def rand_sig(rng, rich=False):
     for _ in range(n_pk):
         params.append(mk("pk"))
     if var_pos:
-        params.append(dict(kind="vp", name="args", ann=rng.choice(["int", None]), default=None))
+        params.append(dict(kind="vp", name="args", ann=rng.choice(["int", "int", None, None, "None"]), default=None))
     for _ in range(n_ko):
         params.append(mk("ko"))
     if var_kw:
-        params.append(dict(kind="vk", name="kwargs", ann=rng.choice(["int", None]), default=None))
+        params.append(dict(kind="vk", name="kwargs", ann=rng.choice(["int", "int", None, None, "None"]), default=None))
     return params
 
 
@@ -321,6 +321,10 @@ def conv(ann, v):
     from utype.utils.transform import type_transform
     if ann is None:
         return v
+    if ann == "None":
+        if v is None:
+            return None
+        raise TypeError("not None")
     from utype.parser.rule import Rule
     T = Rule.parse_annotation(annotation=eval(ann, vars(dyn)))
     return type_transform(v, T)
